@@ -66,6 +66,8 @@ type FuncContract struct {
 	Line     int
 	Pkg      string // package path of the contract file ("" for library files)
 	Used     bool
+	At       string // source text fingerprint: binds the contract to the function containing this text
+	RelName  string
 }
 
 type PredDef struct {
@@ -101,15 +103,16 @@ type Contracts struct {
 	SmtRaw  []string
 	SmtFuns map[string]*SmtFun
 	Files   []string
+	NonNil  map[string]bool // named types whose values are assumed non-nil (listed assumption)
 }
 
 func NewContracts() *Contracts {
-	return &Contracts{Funcs: map[string]*FuncContract{}, Preds: map[string]*PredDef{}, Ghosts: map[string]*GhostDef{}, SmtFuns: map[string]*SmtFun{}}
+	return &Contracts{Funcs: map[string]*FuncContract{}, Preds: map[string]*PredDef{}, Ghosts: map[string]*GhostDef{}, SmtFuns: map[string]*SmtFun{}, NonNil: map[string]bool{}}
 }
 
 var clauseKeywords = map[string]bool{"func": true, "extern": true, "functype": true, "iface": true, "params": true, "results": true,
 	"requires": true, "ensures": true, "modifies": true, "loop": true, "pure": true, "trusted": true, "noinline": true, "panics": true,
-	"pred": true, "ghost": true, "smt": true, "lemma": true, "assume": true, "end": true}
+	"pred": true, "ghost": true, "smt": true, "lemma": true, "assume": true, "end": true, "nonnil": true}
 
 func firstWord(s string) string {
 	s = strings.TrimSpace(s)
@@ -203,11 +206,17 @@ func (cs *Contracts) LoadContractFile(path, pkgPath string) error {
 		switch c.kw {
 		case "func", "extern", "functype", "iface":
 			name := strings.TrimSpace(c.text)
+			at := ""
+			if i := strings.Index(name, " at \""); i > 0 {
+				at = strings.TrimSuffix(strings.TrimSpace(name[i+4:]), "\"")
+				at = strings.TrimPrefix(at, "\"")
+				name = strings.TrimSpace(name[:i])
+			}
 			full := name
 			if c.kw == "func" && pkgPath != "" {
 				full = pkgPath + "." + name
 			}
-			cur = &FuncContract{Kind: c.kw, Name: full, Loops: map[int]*LoopSpec{}, File: path, Line: c.no, Pkg: pkgPath}
+			cur = &FuncContract{Kind: c.kw, Name: full, Loops: map[int]*LoopSpec{}, File: path, Line: c.no, Pkg: pkgPath, At: at, RelName: name}
 			if _, dup := cs.Funcs[full]; dup {
 				return fmt.Errorf("%s:%d: duplicate contract for %s", path, c.no, full)
 			}
@@ -350,6 +359,8 @@ func (cs *Contracts) LoadContractFile(path, pkgPath string) error {
 				return err
 			}
 			cs.Lemmas = append(cs.Lemmas, &Lemma{Name: strings.TrimSpace(c.text[:i]), C: k, Assume: c.kw == "assume", Pkg: pkgPath})
+		case "nonnil":
+			cs.NonNil[strings.TrimSpace(c.text)] = true
 		case "end":
 		}
 	}
